@@ -629,20 +629,12 @@ pub fn families(tier: Tier, _variant: &str) -> Vec<Family> {
         }
         v.push(Family::of_vec("corpus-string-literals", lits, move |l, ctx| check_literal(ctx, l, both, &f2[..1])));
     }
-    // 7. plain run of every length followed by every short B11 tail
+    // 7. (escape head) + plain run of every length + every short B11 tail: every continuation at
+    // every offset of the scanners, before and after the string's first escape
     {
-        let k = gen::B11.len() as u64;
-        let tl = if q { 2 } else { 3 };
-        let tails = gen::seq_count(k, tl);
-        let max_run: u64 = if q { 70 } else { 140 };
-        v.push(Family::new("plain-run+b11-tail", (max_run + 1) * tails, move |idx, ctx| {
-            let run = idx / tails;
-            let mut seq = vec![];
-            gen::nth_seq(k, tl, idx % tails, &mut seq);
-            let mut tail = vec![];
-            gen::concat(gen::B11, &seq, &mut tail);
-            let mut body: Vec<u8> = (0..run).map(|i| b'a' + (i % 26) as u8).collect();
-            body.extend_from_slice(&tail);
+        let (heads, max_run, tl) = if q { (2usize, 70u64, 3u32) } else { (3, 140, 4) };
+        v.push(Family::new("head+plain-run+b11-tail", gen::head_run_tail_count(heads, max_run, tl), move |idx, ctx| {
+            let body = gen::head_run_tail_body(heads, max_run, tl, idx);
             check_literal(ctx, &lit_of(&body), both, f2);
         }));
     }
